@@ -352,6 +352,23 @@ def verify_function(cset, key, opts=None):
         res.describe = ex.describe()
         if ex.unsupported:
             res.unsupported.extend(ex.unsupported)
+        from .ctx import Obligation
+        for d in ex.extra_decorators:
+            base = d.split("(")[0].split(".")[-1]
+            if base in fc.allow_decorators:
+                continue
+            if base in ("lru_cache", "cache", "cached_property") and fc.fresh_result:
+                res.obligations.append(Obligation(
+                    "%s:result is a fresh object on every call" % fc.key,
+                    "the function returns a new (mutable) object per call; decorator @%s memoises it, so callers that "
+                    "mutate the result corrupt later calls" % d, "refuted", "structural", 0.0, model={"decorator": d},
+                    info={"kind": "structure", "decorator": d}, path=[]))
+            else:
+                res.unsupported.append("decorator %s is not covered by the contract" % d)
+        if fc.fresh_result and not any(d.split("(")[0].split(".")[-1] in ("lru_cache", "cache") for d in ex.extra_decorators):
+            res.obligations.append(Obligation("%s:result is a fresh object on every call" % fc.key,
+                                              "no memoising decorator on a function that returns a mutable object",
+                                              "discharged", "structural", 0.0, info={"kind": "structure"}, path=[]))
     except Exception as e:    # noqa
         res.unsupported.append("extract: %s" % e)
         res.secs = time.time() - t0
@@ -365,7 +382,7 @@ def verify_function(cset, key, opts=None):
         if time.time() > deadline:
             res.unsupported.append("function time budget exceeded after %d paths" % res.paths)
             break
-        prefix = work.pop()
+        prefix = work.pop(0)        # breadth first: short paths (and their refutations) come first
         pending = run_path(cset, fc, prefix, res, opts)
         work.extend(pending)
     res.secs = time.time() - t0
